@@ -294,8 +294,11 @@ def stamp (i e : Nat) (p : PoolSt) (w : W) : W :=
 theorem acceptEvent_new (i e : Nat) (head : Bool) (w : W) (p : PoolSt) (ev : Ev) (hp : w.pools[i]? = some p)
     (hev : w.events[e]? = some ev) (hl : ev.poolSerials.lookup p.name = none) :
     acceptEvent i e head w = insertEv i e head (stamp i e p (if ev.serial.isNone then serialStep e w else w)) := by
+  -- this is where the counters `_acceptEvent` hands to `new_serial` (generated `acceptSer_c0_0`, `acceptSer_c1_0`) are
+  -- unfolded: the event serial is drawn from `GlobalSerial`, the pool serial from the pool's own counter
   unfold acceptEvent stamp serialStep
-  simp only [hp, hev, hl, Option.isSome_none, accept_g2, Bool.not_false, if_true]
+  simp only [hp, hev, hl, Option.isSome_none, accept_g2, Bool.not_false, if_true, evSerial, poolSerial,
+    acceptSer_c0_0, acceptSer_c1_0]
 
 theorem getElem?_map_setEv {β : Type} (g : Ev → β) (w : W) (e k : Nat) (f : Ev → Ev) :
     ((setEv w e f).events.map g)[k]? = if e = k then (w.events[k]?).map (fun x => g (f x)) else (w.events.map g)[k]? := by
@@ -788,7 +791,7 @@ theorem j_setProc (h : Bytes → HRes) (w : W) (pi li : Nat) (p : PoolSt) (l l' 
     · exact hj.ls j q m hqj hm
   · intro pj x
     have hw := hj.led pj x
-    rw [hq.acc_eq, inBuffer_setPool _ _ _ (fun q => rfl)]
+    rw [hq.acc_eq, inBuffer_setPool w pi (fun q => { q with procs := q.procs.set li l' }) (fun q => rfl)]
     show _ + _ + okCount h pj x w.outs + discardCount pj x w.outs + _ = _
     by_cases hpj : pj = pi
     · subst hpj
@@ -832,14 +835,344 @@ theorem j_onListener (h : Bytes → HRes) (pi li : Nat) (f : Listener.S → List
         have hmem : l ∈ p.procs := List.mem_of_getElem? hl
         obtain ⟨⟨lo, ho, hns, hcons⟩, hok⟩ := hf l (hj.ls pi p l hp hmem)
         simp only [List.nil_append] at ho
+        subst ho
         have hj0 : J h w pi (fun _ => 0) := ⟨hj.st, hj.ls, hj.sv, ledger_zero h w k pi hj.led⟩
-        have h1 := j_setProc h w pi li p l (f { p := l }).p (fun _ => 0) (fun x => okL h x lo + rejL x lo) hp hl hok
-          (by intro x; have := hcons x; omega) hj0
+        have h1 := j_setProc h w pi li p l (f { p := l }).p (fun _ => 0)
+          (fun x => okL h x (f { p := l }).outs + rejL x (f { p := l }).outs) hp hl hok
+          (by intro x
+              have : heldL (f { p := l }).p x + okL h x (f { p := l }).outs + rejL x (f { p := l }).outs = heldL l x := hcons x
+              omega) hj0
         have hli : li < p.procs.length := (List.getElem?_eq_some_iff.mp hl).1
-        have h2 := j_absorb h pi li lo _ ⟨{ p with procs := p.procs.set li (f { p := l }).p },
+        have h2 := j_absorb h pi li (f { p := l }).outs _ ⟨{ p with procs := p.procs.set li (f { p := l }).p },
           by rw [getElem?_setPool]; simp [hp], by simpa using hli⟩ h1
-        rw [ho]
         have h3 := j_err h _ pi (fun _ => 0) (f { p := l }).err h2
         exact ⟨h3.st, h3.ls, h3.sv, ledger_zero h _ pi k h3.led⟩
+
+/-! ### `dispatch` -/
+
+/-- trace entries that are neither handler calls nor rejections are recorded: nothing moves -/
+theorem j_outs_plain (h : Bytes → HRes) (w : W) (pi li k : Nat) (os : List Listener.Out) (d : Nat → Nat)
+    (hc : ∀ o ∈ os, clears o = false) (hj : J h w k d) :
+    J h { w with outs := w.outs ++ os.map (POut.lis pi li) } k d := by
+  refine ⟨Static.of_shapes (w := w) rfl hj.st, fun j p l hp hl => hj.ls j p l hp hl, (quiet_outs w _).sinv hj.sv, ?_⟩
+  intro pj x
+  have hw := hj.led pj x
+  have ha : accepted { w with outs := w.outs ++ os.map (POut.lis pi li) } pj x = accepted w pj x := accepted_congr rfl rfl
+  have hb : inBuffer { w with outs := w.outs ++ os.map (POut.lis pi li) } pj x = inBuffer w pj x := inBuffer_congr rfl x
+  have hh : heldBy { w with outs := w.outs ++ os.map (POut.lis pi li) } pj x = heldBy w pj x := heldBy_congr rfl x
+  rw [ha, hb, hh]
+  show _ + okCount h pj x (w.outs ++ os.map (POut.lis pi li)) + discardCount pj x (w.outs ++ os.map (POut.lis pi li)) + _ = _
+  rw [okCount_append, discardCount_append]
+  have h1 : discardCount pj x (os.map (POut.lis pi li)) = 0 := by
+    simp only [discardCount, List.countP_eq_zero]
+    intro a ha; simp at ha; obtain ⟨o, _, rfl⟩ := ha; simp [isDiscP]
+  have h2 : okCount h pj x (os.map (POut.lis pi li)) = 0 := by
+    simp only [okCount, List.countP_eq_zero]
+    intro a ha; simp at ha; obtain ⟨o, ho, rfl⟩ := ha
+    have := hc o ho
+    cases o <;> simp_all [isOkP, isOkOut, clears]
+  rw [h1, h2]; omega
+
+theorem j_go (h : Bytes → HRes) (pi e : Nat) (env : Bytes) : ∀ (fuel li : Nat) (w : W), w.err = none →
+    J h w pi (fun x => if x = e then 1 else 0) →
+    (dispatchEvent.go pi e env fuel li w).1.err = none ∧
+    ((dispatchEvent.go pi e env fuel li w).2 = true → J h (dispatchEvent.go pi e env fuel li w).1 pi (fun _ => 0)) ∧
+    ((dispatchEvent.go pi e env fuel li w).2 = false →
+      J h (dispatchEvent.go pi e env fuel li w).1 pi (fun x => if x = e then 1 else 0))
+  | 0, li, w, he, hj => ⟨he, by intro hh; simp [dispatchEvent.go] at hh, fun _ => hj⟩
+  | fuel + 1, li, w, he, hj => by
+    unfold dispatchEvent.go
+    split
+    · exact ⟨he, by intro hh; simp at hh, fun _ => hj⟩
+    · rename_i l hbind
+      obtain ⟨p, hp, hl⟩ : ∃ p, w.pools[pi]? = some p ∧ p.procs[li]? = some l := by
+        cases hp : w.pools[pi]? with
+        | none => simp [hp] at hbind
+        | some p => simp [hp] at hbind; exact ⟨p, rfl, hbind⟩
+      obtain ⟨herr, tl, houts, hcl, hsent⟩ := trySend_trace e env { p := l } rfl
+      simp only [List.nil_append] at houts
+      have hab := absorb_plain pi li (trySend e env { p := l }).1.outs
+        (setPool w pi (fun p => { p with procs := p.procs.set li (trySend e env { p := l }).1.p })) (by rw [houts]; exact hcl)
+      simp only [hab, herr, Option.isSome_none, Bool.false_eq_true, if_false]
+      obtain ⟨hok, hheld⟩ := trySend_held e env l (hj.ls pi p l hp (List.mem_of_getElem? hl))
+      have hplain : ∀ o ∈ (trySend e env { p := l }).1.outs, clears o = false := by rw [houts]; exact hcl
+      rcases hheld with ⟨hs, hnone, hsome⟩ | ⟨hs, hsame⟩
+      · -- handed over
+        rw [hs]
+        simp only []
+        have h1 := j_setProc h w pi li p l (trySend e env { p := l }).1.p _ (fun _ => 0) hp hl hok
+          (by intro x
+              by_cases hx : x = e
+              · subst hx; simp [heldL, hnone, hsome]
+              · have : ¬ e = x := fun hh => hx hh.symm
+                simp [heldL, hnone, hsome, hx, this]) hj
+        have h2 := j_outs_plain h _ pi li pi _ _ hplain h1
+        exact ⟨he, fun _ => h2, by intro hh; cases hh⟩
+      · have h1 := j_setProc h w pi li p l (trySend e env { p := l }).1.p _ (fun x => if x = e then 1 else 0) hp hl hok
+          (by intro x; simp [heldL, hsame]) hj
+        have h2 := j_outs_plain h _ pi li pi _ _ hplain h1
+        cases hr : (trySend e env { p := l }).2 with
+        | sent => exact absurd hr hs
+        | skipped =>
+          simp only []
+          exact j_go h pi e env fuel (li + 1) _ he h2
+        | epipe =>
+          simp only []
+          exact j_go h pi e env fuel (li + 1) _ he h2
+
+theorem j_dispatchEvent (h : Bytes → HRes) (pi e : Nat) (w : W) (he : w.err = none)
+    (hj : J h w pi (fun x => if x = e then 1 else 0)) :
+    (dispatchEvent pi e w).1.err = none ∧
+    ((dispatchEvent pi e w).2 = true → J h (dispatchEvent pi e w).1 pi (fun _ => 0)) ∧
+    ((dispatchEvent pi e w).2 = false → J h (dispatchEvent pi e w).1 pi (fun x => if x = e then 1 else 0)) := by
+  unfold dispatchEvent
+  split
+  · exact j_go h pi e _ _ 0 w he hj
+  · exact ⟨he, by intro hh; simp at hh, fun _ => hj⟩
+
+/-- `event_buffer.pop(0)`: the oldest event is in transit -/
+theorem j_pop (h : Bytes → HRes) (pi e : Nat) (rest : List Nat) (w : W) (p : PoolSt) (hp : w.pools[pi]? = some p)
+    (hb : p.buffer = e :: rest) (hj : J h w pi (fun _ => 0)) :
+    J h (setPool w pi (fun p => { p with buffer := p.buffer.drop 1 })) pi (fun x => if x = e then 1 else 0) := by
+  have hq : Quiet w (setPool w pi (fun p => { p with buffer := p.buffer.drop 1 })) :=
+    quiet_setPool w pi _ (fun q => by simp [kview])
+  refine ⟨Static.of_shapes hq.shapes hj.st, ?_, hq.sinv hj.sv, ?_⟩
+  · refine LAll.of_fixed (fun j => ?_) hj.ls
+    rw [getElem?_setPool]
+    split
+    · cases w.pools[j]? <;> rfl
+    · rfl
+  · intro pj x
+    have hw := hj.led pj x
+    rw [hq.acc_eq, heldBy_setPool w pi (fun p => { p with buffer := p.buffer.drop 1 }) (fun q => rfl)]
+    show _ + _ + okCount h pj x w.outs + discardCount pj x w.outs + _ = _
+    by_cases hpj : pj = pi
+    · subst hpj
+      have hnew : (setPool w pj (fun p => { p with buffer := p.buffer.drop 1 })).pools[pj]? =
+          some { p with buffer := rest } := by rw [getElem?_setPool]; simp [hp, hb]
+      rw [inBuffer_of hnew]
+      rw [inBuffer_of hp, hb, List.count_cons] at hw
+      have hex : (if (e == x) = true then 1 else 0) = (if x = e then 1 else (0 : Nat)) := by
+        by_cases hxe : x = e
+        · subst hxe; simp
+        · have : ¬ e = x := fun hh => hxe hh.symm
+          simp [hxe, this]
+      rw [hex] at hw
+      simp only [if_true] at hw ⊢
+      omega
+    · have : inBuffer (setPool w pi (fun p => { p with buffer := p.buffer.drop 1 })) pj x = inBuffer w pj x :=
+        inBuffer_congr (by rw [getElem?_setPool, if_neg (fun hh => hpj hh.symm)]) x
+      rw [this]
+      simp only [hpj, if_false] at hw ⊢
+      exact hw
+
+theorem j_dispatch (h : Bytes → HRes) (pi : Nat) : ∀ (fuel : Nat) (w : W), w.err = none → J h w pi (fun _ => 0) →
+    J h (dispatch pi fuel w) pi (fun _ => 0)
+  | 0, w, _, hj => hj
+  | fuel + 1, w, he, hj => by
+    unfold dispatch
+    split
+    · exact hj
+    · rename_i p hp
+      split
+      · exact hj
+      · rename_i e rest hb
+        have h1 := j_pop h pi e rest w p hp hb hj
+        obtain ⟨g1, g2, g3⟩ := j_dispatchEvent h pi e (setPool w pi (fun p => { p with buffer := p.buffer.drop 1 })) he h1
+        simp only [g1, Option.isSome_none, Bool.false_eq_true, if_false]
+        cases hok : (dispatchEvent pi e (setPool w pi (fun p => { p with buffer := p.buffer.drop 1 }))).2 with
+        | true =>
+          simp only [if_true]
+          exact j_dispatch h pi fuel _ g1 (g2 hok)
+        | false =>
+          simp only [Bool.false_eq_true, if_false]
+          exact j_rebuffer h pi e _ (fun _ => 0) (J.congr_d (by intro x; simp) (g3 hok))
+
+/-! ### every operation, every history -/
+
+theorem j_pool_irrelevant {h : Bytes → HRes} {w : W} (i k : Nat) (hj : J h w i (fun _ => 0)) : J h w k (fun _ => 0) :=
+  ⟨hj.st, hj.ls, hj.sv, ledger_zero h w i k hj.led⟩
+
+theorem j_transition (h : Bytes → HRes) (pi k : Nat) (w : W) (hj : J h w k (fun _ => 0)) :
+    J h (transition pi w) k (fun _ => 0) := by
+  unfold transition
+  split
+  · exact hj
+  · rename_i he
+    have he' : w.err = none := by cases hw : w.err <;> simp_all
+    split
+    · exact hj
+    · simp only []
+      split
+      · exact j_pool_irrelevant pi k (j_dispatch h pi _ w he' (j_pool_irrelevant k pi hj))
+      · exact hj
+
+theorem lt_pipeline (h : Bytes → HRes) (data : Bytes) (l : Lst) (hl : LOK l) :
+    LT h { p := l } (({ p := l } : Listener.S) |> setP (fun p => { p with pipeBroken := true }) |> readEvent h data |> writeEvent) ∧
+    LOK (({ p := l } : Listener.S) |> setP (fun p => { p with pipeBroken := true }) |> readEvent h data |> writeEvent).p := by
+  have h0 := lt_ns h (s := { p := l }) hl (ns_setP (fun p => { p with pipeBroken := true }) _ ⟨rfl, rfl, rfl, rfl, rfl⟩)
+  have h1 := lt_readEvent h data _ h0.2
+  have h2 := lt_ns h h1.2 (ns_writeEvent _)
+  exact ⟨LT.trans h0.1 (LT.trans h1.1 h2.1), h2.2⟩
+
+theorem j_dieOp (h : Bytes → HRes) (pi li k : Nat) (data payload : Bytes) (w : W) (hj : J h w k (fun _ => 0)) :
+    J h (dieOp h pi li data payload w) k (fun _ => 0) := by
+  unfold dieOp
+  split
+  · exact hj
+  · split
+    · exact hj
+    · simp only []
+      have h1 := j_onListener h pi li
+        (fun s => s |> setP (fun p => { p with pipeBroken := true }) |> readEvent h data |> writeEvent) w k
+        (fun l hl => lt_pipeline h data l hl) hj
+      split
+      · exact h1
+      · exact j_onListener h pi li (die h []) _ k (fun l hl => lt_die h [] _ hl) (j_notify h _ payload _ k h1)
+
+theorem j_spawnOp (h : Bytes → HRes) (pi li k : Nat) (pid : Int) (payload : Bytes) (w : W) (hj : J h w k (fun _ => 0)) :
+    J h (spawnOp pi li pid payload w) k (fun _ => 0) := by
+  unfold spawnOp
+  split
+  · exact hj
+  · split
+    · exact hj
+    · split
+      · exact hj
+      · exact j_onListener h pi li (spawn pid) _ k (fun l hl => lt_spawn h pid _ hl) (j_notify h _ payload w k hj)
+
+theorem j_applyOp (h : Bytes → HRes) (w : W) (op : Op) (k : Nat) (hj : J h w k (fun _ => 0)) :
+    J h (applyOp h w op) k (fun _ => 0) := by
+  cases op <;> simp only [applyOp]
+  · exact j_notify h _ _ w k hj
+  · exact j_transition h _ k w hj
+  · exact j_onListener h _ _ _ w k (fun l hl => lt_readEvent h _ _ hl) hj
+  · exact j_onListener h _ _ _ w k (fun l hl => lt_ns h (s := { p := l }) hl (ns_writeEvent _)) hj
+  · exact j_onListener h _ _ _ w k (fun l hl => lt_ns h (s := { p := l }) hl (ns_setPState _ _)) hj
+  · exact j_onListener h _ _ _ w k
+      (fun l hl => lt_ns h (s := { p := l }) hl (ns_setP _ _ ⟨rfl, rfl, rfl, rfl, rfl⟩)) hj
+  · exact j_onListener h _ _ _ w k
+      (fun l hl => lt_ns h (s := { p := l }) hl (ns_setP _ _ ⟨rfl, rfl, rfl, rfl, rfl⟩)) hj
+  · exact j_dieOp h _ _ k _ _ w hj
+  · exact j_spawnOp h _ _ k _ _ w hj
+
+theorem j_step (h : Bytes → HRes) (w : W) (op : Op) (k : Nat) (hj : J h w k (fun _ => 0)) :
+    J h (step h w op) k (fun _ => 0) :=
+  j_applyOp h _ op k (j_err h w k _ none hj)
+
+theorem j_exec (h : Bytes → HRes) (k : Nat) : ∀ (ops : List Op) (w : W), J h w k (fun _ => 0) → J h (exec h w ops) k (fun _ => 0)
+  | [], w, hj => hj
+  | op :: ops, w, hj => j_exec h k ops (step h w op) (j_step h w op k hj)
+
+/-! ### a freshly configured daemon -/
+
+theorem assignIds_getElem? : ∀ (ps : List PoolSt) (k i : Nat) (q : PoolSt), (assignIds k ps)[i]? = some q →
+    ∃ p off, ps[i]? = some p ∧ k ≤ off ∧ q = { p with ids := (List.range p.procs.length).map (· + off) }
+  | [], k, i, q, hq => by simp [assignIds] at hq
+  | p :: ps, k, 0, q, hq => by
+    simp only [assignIds, List.getElem?_cons_zero, Option.some.injEq] at hq
+    exact ⟨p, k, rfl, Nat.le_refl _, hq.symm⟩
+  | p :: ps, k, i + 1, q, hq => by
+    simp only [assignIds, List.getElem?_cons_succ] at hq
+    obtain ⟨p', off, h1, h2, h3⟩ := assignIds_getElem? ps (k + p.procs.length) i q hq
+    exact ⟨p', off, by simpa using h1, by omega, h3⟩
+
+theorem assignIds_ge (ps : List PoolSt) (k i : Nat) (q : PoolSt) (x : Nat) (hq : (assignIds k ps)[i]? = some q)
+    (hx : x ∈ q.ids) : k ≤ x := by
+  obtain ⟨p, off, _, h2, h3⟩ := assignIds_getElem? ps k i q hq
+  subst h3
+  simp at hx
+  obtain ⟨a, _, rfl⟩ := hx
+  omega
+
+theorem assignIds_own : ∀ (ps : List PoolSt) (k i j : Nat) (p q : PoolSt) (x : Nat), (assignIds k ps)[i]? = some p →
+    (assignIds k ps)[j]? = some q → x ∈ p.ids → x ∈ q.ids → i = j
+  | [], k, i, j, p, q, x, hp, _, _, _ => by simp [assignIds] at hp
+  | a :: ps, k, 0, 0, p, q, x, _, _, _, _ => rfl
+  | a :: ps, k, 0, j + 1, p, q, x, hp, hq, hx, hy => by
+    simp only [assignIds, List.getElem?_cons_zero, Option.some.injEq, List.getElem?_cons_succ] at hp hq
+    subst hp
+    have := assignIds_ge ps _ j q x hq hy
+    simp at hx
+    obtain ⟨b, hb, rfl⟩ := hx
+    omega
+  | a :: ps, k, i + 1, 0, p, q, x, hp, hq, hx, hy => by
+    simp only [assignIds, List.getElem?_cons_zero, Option.some.injEq, List.getElem?_cons_succ] at hp hq
+    subst hq
+    have := assignIds_ge ps _ i p x hp hx
+    simp at hy
+    obtain ⟨b, hb, rfl⟩ := hy
+    omega
+  | a :: ps, k, i + 1, j + 1, p, q, x, hp, hq, hx, hy => by
+    simp only [assignIds, List.getElem?_cons_succ] at hp hq
+    rw [assignIds_own ps _ i j p q x hp hq hx hy]
+
+theorem nodup_getElem?_inj {α : Type} : ∀ (l : List α) (i j : Nat) (a : α), l.Nodup → l[i]? = some a → l[j]? = some a → i = j
+  | [], i, j, a, _, h, _ => by simp at h
+  | b :: l, 0, 0, a, _, _, _ => rfl
+  | b :: l, 0, j + 1, a, hn, h1, h2 => by
+    simp at h1 h2; subst h1
+    exact absurd (List.mem_of_getElem? h2) (List.nodup_cons.mp hn).1
+  | b :: l, i + 1, 0, a, hn, h1, h2 => by
+    simp at h1 h2; subst h2
+    exact absurd (List.mem_of_getElem? h1) (List.nodup_cons.mp hn).1
+  | b :: l, i + 1, j + 1, a, hn, h1, h2 => by
+    simp at h1 h2
+    rw [nodup_getElem?_inj l i j a (List.nodup_cons.mp hn).2 h1 h2]
+
+/-- pools as configured: distinct names (section names of the configuration file), counters at their initial value,
+    empty buffers, listeners that hold nothing -/
+structure FreshPools (ps : List PoolSt) : Prop where
+  names : (ps.map (·.name)).Nodup
+  start : ∀ p ∈ ps, p.serial = initialSerial ∧ p.buffer = [] ∧ ∀ l ∈ p.procs, LOK l ∧ l.event = none
+
+theorem static_assignIds (ps : List PoolSt) (hn : (ps.map (·.name)).Nodup) : Static { pools := assignIds 0 ps } := by
+  refine ⟨?_, ?_, ?_⟩
+  · intro i j p q hp hq hpq
+    obtain ⟨p0, _, h1, _, h3⟩ := assignIds_getElem? ps 0 i p hp
+    obtain ⟨q0, _, h2, _, h4⟩ := assignIds_getElem? ps 0 j q hq
+    subst h3; subst h4
+    simp only [] at hpq
+    exact nodup_getElem?_inj (ps.map (·.name)) i j p0.name hn (by simp [h1]) (by simp [h2, hpq])
+  · intro i p hp
+    obtain ⟨p0, _, _, _, h3⟩ := assignIds_getElem? ps 0 i p hp
+    subst h3; simp
+  · intro i j p q x hp hq hx hy
+    exact assignIds_own ps 0 i j p q x hp hq hx hy
+
+theorem j_fresh (h : Bytes → HRes) (ps : List PoolSt) (hf : FreshPools ps) (k : Nat) :
+    J h { pools := assignIds 0 ps } k (fun _ => 0) := by
+  have hback : ∀ (i : Nat) (q : PoolSt), (assignIds 0 ps)[i]? = some q → ∃ p ∈ ps, q.serial = p.serial ∧ q.buffer = p.buffer ∧ q.procs = p.procs := by
+    intro i q hq
+    obtain ⟨p0, _, h1, _, h3⟩ := assignIds_getElem? ps 0 i q hq
+    subst h3
+    exact ⟨p0, List.mem_of_getElem? h1, rfl, rfl, rfl⟩
+  refine ⟨static_assignIds ps hf.names, ?_, ⟨?_, ?_, ?_⟩, ?_⟩
+  · intro i q l hq hl
+    obtain ⟨p, hp, _, _, h3⟩ := hback i q hq
+    exact ((hf.start p hp).2.2 l (by rw [← h3]; exact hl)).1
+  · exact chain_nil
+  · intro i q hq
+    obtain ⟨p, hp, h1, _, _⟩ := hback i q hq
+    have : q.serial = initialSerial := by rw [h1]; exact (hf.start p hp).1
+    rw [this]; exact chain_nil
+  · intro e ev hev; simp at hev
+  · intro pj x
+    have hacc : accepted ({ pools := assignIds 0 ps } : W) pj x = false := by
+      unfold accepted
+      cases (assignIds 0 ps)[pj]? <;> simp
+    rw [hacc]
+    simp only [okCount, discardCount, List.countP_nil, ite_self, Nat.add_zero, Bool.toNat_false]
+    cases hq : (assignIds 0 ps)[pj]? with
+    | none => simp [inBuffer, heldBy, hq]
+    | some q =>
+      obtain ⟨p, hp, _, h2, h3⟩ := hback pj q hq
+      have hb : q.buffer = [] := by rw [h2]; exact (hf.start p hp).2.1
+      have hh : q.procs.countP (fun l => l.event == some x) = 0 := by
+        rw [List.countP_eq_zero]
+        intro l hl
+        have := ((hf.start p hp).2.2 l (by rw [← h3]; exact hl)).2
+        simp [this]
+      simp [inBuffer, heldBy, hq, hb, hh]
 
 end Sv.Pool
